@@ -2,9 +2,22 @@
    Part (a) of DESIGN 4 C17: explicit library state.  In Gallina a function cannot mutate its argument, so
    the property is made non-vacuous by modelling the state that DOES survive between calls of the Python
    library: the inventory of its carriers is regenerated from the source on every run
-   (Generated/GenSharedState.v, tools/dump_c17.py) and must coincide with what the model accounts for. *)
+   (Generated/GenSharedState.v, tools/dump_c17.py) and must coincide with what the model accounts for.
+
+   WHAT IS AND IS NOT A THEOREM HERE (C17 is partial by nature, see DESIGN 8.7):
+   * theorems: the inventory of carriers equals the accounted list and every class is consistent with its write /
+     escape counts; the one written carrier (the router's memo) is transparent for every history, instantiated with
+     the function the router model calls; defaults used under the copying discipline are history-independent, and
+     the aliasing discipline is refuted (the as-found boot() defect);
+   * NOT theorems, decided by the differential runs of harness/c17.py only: that placement / allocation / routing /
+     table generation / minimisation leave their ARGUMENTS unchanged (deep snapshots before / after every call); that
+     a call after any history equals the same call made first in a fresh interpreter with the same seeded generator
+     (random, family, reuse, wrapper, table, boot and controller histories); independence of bit-field definitions
+     and of controllers created one after another; state carried on instances, identity-ordered sets and anything
+     else the syntactic inventory cannot see.  The C02-C05, C08 models are pure functions of their inputs, so inside
+     the models both clauses hold by construction -- which is exactly why they are not restated as theorems. *)
 From Coq Require Import ZArith List String Bool.
-Require Import Rig.Generated.GenSharedState Rig.Model.Base Rig.Model.LibState Rig.Proofs.LibState.
+Require Import Rig.Generated.GenSharedState Rig.Model.Base Rig.Model.Geometry Rig.Model.LibState Rig.Proofs.LibState.
 Import ListNotations.
 Open Scope Z_scope.
 
@@ -16,7 +29,8 @@ Theorem C17_inventory_accounted : carriers_eqb (map fst accounted) carriers = tr
 Proof. vm_compute. reflexivity. Qed.
 
 (* Each accounted carrier's class is consistent with its write/escape counts: only the memo and tables
-   filled at import time are ever written, only forwarded defaults escape. *)
+   filled at import time are ever written, only forwarded defaults escape -- each exactly once, never written here
+   (that their receivers copy is checked by the differential run, not by a theorem). *)
 Theorem C17_classes_consistent : forallb class_consistent accounted = true.
 Proof. exact accounted_consistent. Qed.
 
@@ -34,11 +48,38 @@ Theorem C17_memo_returns_f :
     fst (memo_call f (memo_after f history) r) = f r.
 Proof. exact @memo_returns_f. Qed.
 
-(* A default object that is only ever copied is the same object after the call. *)
-Theorem C17_copied_default_unchanged :
-  forall (S : Type) (default : S) (arg : option S) (write : S -> S),
-    snd (call_with_default default arg write) = default.
-Proof. exact @default_untouched. Qed.
+(* The memo as the router uses it: whatever radii were asked for before, radius r yields exactly
+   geometry.concentric_hexagons r (0,0) -- the expression Model/Route.v evaluates directly, which is why the router
+   model (C03) needs no memo state. *)
+Theorem C17_ner_memo_transparent :
+  forall (history : list Z) (r : Z),
+    fst (ner_memo_call (memo_after (fun r => Rig.Model.Geometry.concentric_hexagons r (0, 0)) history) r)
+    = Rig.Model.Geometry.concentric_hexagons r (0, 0).
+Proof. exact ner_memo_transparent. Qed.
+
+(* Mutable default arguments as heap cells.  A default with no write site and no escape in the inventory is used
+   under the COPYING discipline: then no history of earlier calls (each with its own write and its own explicit or
+   defaulted argument) changes the default object or the outcome of a later call ... *)
+Theorem C17_copying_defaults_history_independent :
+  forall (S : Type) (history : list ((S -> S) * option S)) (cell0 : S) (w : S -> S) (arg : option S),
+    default_call Copies w (default_after Copies history cell0) arg = default_call Copies w cell0 arg
+    /\ default_after Copies history cell0 = cell0.
+Proof. intros; split; [apply copies_history_independent | apply default_after_copies]. Qed.
+
+(* ... whereas a body that writes through the parameter (one write site: boot() as found, repaired by 0f4c024)
+   makes a later call depend on an earlier one.  The inventory theorem above is what pins every default of the
+   current source to the first discipline. *)
+Theorem C17_aliasing_default_refuted :
+  exists (history : list ((Z -> Z) * option Z)) (cell0 : Z) (w : Z -> Z),
+    fst (default_call Aliases w (default_after Aliases history cell0) None)
+    <> fst (default_call Aliases w cell0 None)
+    /\ default_after Aliases history cell0 <> cell0.
+Proof. exact aliases_history_dependent. Qed.
+
+Theorem C17_explicit_argument_never_touches_default :
+  forall (S : Type) (d : discipline) (w : S -> S) (cell a : S),
+    snd (default_call d w cell (Some a)) = cell.
+Proof. exact @explicit_argument_never_touches_default. Qed.
 
 (* Non-vacuity: a non-empty history really populates the memo, and the inventory is not empty. *)
 Example C17_memo_nonvacuous :
